@@ -148,12 +148,15 @@ def make_session(kind):
     return srv
 
 
-def realpath(srv, reqno, path):
-    """Send one REALPATH request through SFTPServer._process; returns ('name', filename) | ('other', type, bytes)."""
+def realpath(srv, reqno, path, trailer=b""):
+    """Send one REALPATH request through SFTPServer._process; returns ('name', filename) | ('other', type, bytes).
+    `trailer` = bytes after the path string (later SFTP drafts append a control byte and compose-path strings;
+    a v3 server has no use for them, and whatever it does with them the answer must stay canonical)."""
     from paramiko.message import Message
     from paramiko.sftp import CMD_REALPATH, CMD_NAME
     m = Message()
     m.add_string(path)
+    m.add_bytes(trailer)
     m.rewind()
     del srv._replies[:]
     srv._process(CMD_REALPATH, reqno, m)
@@ -164,6 +167,108 @@ def realpath(srv, reqno, path):
     if t != CMD_NAME or r.get_int() != reqno or r.get_int() != 1:
         return ("other", t, data)
     return ("name", r.get_text())
+
+
+def wire_sessions(ctx, rng):
+    """Two live SFTP sessions in this process over real Transports (in-memory sockets): the first served by an
+    overriding interface, the second by the default one; SFTPClient.normalize (REALPATH over the wire) on the same
+    path strings, the first session used again after the second.  Infrastructure trouble is a note, not a verdict."""
+    import os
+    import threading
+    from common import with_watchdog
+
+    def work():
+        import logging
+        import paramiko
+        from paramiko import (AUTH_SUCCESSFUL, OPEN_SUCCEEDED, RSAKey, ServerInterface, SFTPClient, SFTPServer,
+                              SFTPServerInterface, Transport)
+        from _loop import LoopSocket
+        logging.getLogger("paramiko").setLevel(logging.CRITICAL)
+
+        class Server(ServerInterface):
+            def check_auth_password(self, username, password):
+                return AUTH_SUCCESSFUL
+
+            def check_channel_request(self, kind, chanid):
+                return OPEN_SUCCEEDED
+
+        class Gateway(SFTPServerInterface):
+            def canonicalize(self, path):
+                return path
+
+        key = RSAKey.from_private_key_file(os.path.join(ctx.repo, "tests", "_support", "rsa.key"))
+        opened = []
+
+        def session(si):
+            socks, sockc = LoopSocket(), LoopSocket()
+            sockc.link(socks)
+            tc, ts = Transport(sockc), Transport(socks)
+            opened.extend([tc, ts])
+            ts.add_server_key(key)
+            ts.set_subsystem_handler("sftp", SFTPServer, si)
+            ts.start_server(threading.Event(), Server())
+            tc.connect(username="u", password="p")
+            return SFTPClient.from_transport(tc)
+
+        paths = ["/pub/../..", "../../etc/passwd", "a/./b/../../..", "//..", "/pub/.. ", ".. ", "a/b/../../..\t",
+                 " ..", "/pub/..\n", ". ", "/a//b/./..", "", ".", "//x", "/\u2025/\u2025/etc", "/pub/\uff0e\uff0e"]
+        paths += [gen_long(rng) for _ in range(12)] + [gen_unicode(rng) for _ in range(8)]
+        paths = [p for p in paths if "\x00" not in p]
+        results = []
+        try:
+            a = session(Gateway)
+            b = session(SFTPServerInterface)
+            for who, cl in (("gateway", a), ("default", b), ("gateway", a), ("default", b)):
+                for pth in paths:
+                    try:
+                        ans = cl.normalize(pth)
+                    except IOError as e:
+                        ans = e
+                    results.append((who, pth, ans))
+        finally:
+            for t in opened:
+                try:
+                    t.close()
+                except Exception:  # noqa
+                    pass
+        return results
+
+    st, res = with_watchdog(work, 40.0)
+    if st != "ok":
+        ctx.notes.append("end-to-end REALPATH sessions not completed (%s: %r); direct-drive results stand" % (st, res))
+        return
+    from paramiko.sftp_si import SFTPServerInterface
+    from paramiko.server import ServerInterface
+    ref = SFTPServerInterface(ServerInterface())
+    for who, pth, ans in res:
+        ctx.count(("wire", who, pth), kind="realpath-over-the-wire")
+        if who != "default":
+            continue
+        case = {"path": pth, "via": "wire"}
+        if not isinstance(ans, str):
+            ctx.fail("realpath-refused-over-the-wire", "SFTPClient.normalize on a default-canonicalisation session "
+                     "fails", case=case, expected="a canonical path", observed=repr(ans))
+            return
+        if not check_out(ctx, case, ans, "-over-the-wire",
+                         "REALPATH over a real SFTP session served with the default canonicalisation answers"):
+            return
+        if ans != ref.canonicalize(pth):
+            ctx.fail("realpath-differs-from-canonicalize-over-the-wire", "the REALPATH answer received by the client "
+                     "differs from canonicalize(path)", case=case, expected=ref.canonicalize(pth), observed=ans)
+            return
+
+
+def gen_trailer(rng):
+    """hex of the bytes after the path string of a REALPATH request"""
+    import struct
+    mode = rng.randrange(4)
+    if mode == 3:
+        return bytes(rng.randrange(256) for _ in range(rng.randrange(1, 12))).hex()
+    out = bytes([rng.choice([0, 1, 2, 3, 0xFF])])
+    for _ in range(rng.randrange(0 if mode == 2 else 1, 5)):
+        comp = rng.choice(["..", "..", ".", "etc", "../..", "/abs", "", "a/../..", "\u2025", "x", "//"]).encode("utf-8")
+        out += struct.pack(">I", len(comp)) + comp
+    return out.hex()
 
 
 class _Quiet:
@@ -185,10 +290,12 @@ def realpath_scenario(ctx, case):
     sessions = [make_session(k) for k in case["sessions"]]
     answers = []
     ok = True
-    for n, (i, path) in enumerate(case["steps"]):
+    for n, step in enumerate(case["steps"]):
+        i, path = step[0], step[1]
+        trailer = bytes.fromhex(step[2]) if len(step) > 2 and step[2] else b""
         kind = case["sessions"][i]
         try:
-            r = realpath(sessions[i], 100 + n, path)
+            r = realpath(sessions[i], 100 + n, path, trailer)
         except Exception as e:  # noqa
             r = ("other", None, repr(e))
         answers.append(r[1] if r[0] == "name" else repr(r))
@@ -293,7 +400,8 @@ def run(ctx):
                 "to length 5 (thorough 6) over {'/', U+2025, U+2024, U+FF0E, 'a'} and seeded paths built from Unicode "
                 "look-alikes of '.', '..', '/' and composed / decomposed names; the same paths as REALPATH requests through "
                 "the real SFTPServer._process, several sessions per process (overriding and default interfaces, "
-                "same strings, same session asked twice, different orders); "
+                "same strings, same session asked twice, different orders, with and without trailing fields after the "
+                "path), and over two real Transport + SFTPServer + SFTPClient.normalize sessions; "
                 "non-trivial = distinct non-empty path" % (oracle_len, model_len))
     ctx.trusted += ["model coq/Model/C34.v is hand-written; canonicalize is tied to paramiko/sftp_si.py and the "
                     "normpath model to the running interpreter's posixpath.normpath by this differential run "
@@ -387,7 +495,10 @@ def run(ctx):
     pools = [short,
              [gen_long(rng) for _ in range(400 if ctx.thorough else 80)],
              [gen_unicode(rng) for _ in range(400 if ctx.thorough else 80)],
-             ["/pub/../..", "../../etc/passwd", "a/./b/../../..", "//..", "//../x", "..", ".", "", "/"]]
+             ["/pub/../..", "../../etc/passwd", "a/./b/../../..", "//..", "//../x", "..", ".", "", "/"],
+             # requests with trailing fields after the path (control byte + compose-path strings, or junk)
+             [(rng.choice(["/pub", "/", "", "a/b", "/pub/", "//x", "..", gen_long(rng)]), gen_trailer(rng))
+              for _ in range(200 if ctx.thorough else 48)]]
     nscen = 0
     for pool in pools:
         for k in range(0, len(pool), 16):
@@ -397,7 +508,9 @@ def run(ctx):
             kinds = [rng.choice(["gateway", "home"]), "default", rng.choice(["default-subclass", "default"]),
                      rng.choice(["gateway", "home"])]
             order = rng.choice([[0, 1, 1, 2, 3, 1], [1, 0, 1, 2], [3, 0, 2, 1, 1], [0, 3, 2, 2, 1]])
-            steps = [[i, pth] for i in order for pth in paths]
+            paths = [pt if isinstance(pt, tuple) else
+                     ((pt, gen_trailer(rng)) if rng.random() < 0.25 else (pt,)) for pt in paths]
+            steps = [[i] + list(pt) for i in order for pt in paths]
             case = {"via": "realpath", "sessions": kinds, "steps": steps}
             quiet = _Quiet()
             good, _ = realpath_scenario(quiet, case)
@@ -410,7 +523,8 @@ def run(ctx):
                 best = case
                 for pth in paths:
                     for cut in range(1, len(order) + 1):
-                        mini = {"via": "realpath", "sessions": kinds, "steps": [[i, pth] for i in order[:cut]]}
+                        mini = {"via": "realpath", "sessions": kinds,
+                                "steps": [[i] + list(pth) for i in order[:cut]]}
                         if not realpath_scenario(_Quiet(), mini)[0]:
                             if len(mini["steps"]) < len(best["steps"]):
                                 best = mini
@@ -420,6 +534,9 @@ def run(ctx):
                 _, ans = realpath_scenario(ctx, best)
                 ctx.sample({"realpath": {"case": best, "answers": ans}})
                 break
+
+    # ---- 3d. end to end: real Transport pair, real SFTPServer subsystem, SFTPClient.normalize ------------------
+    wire_sessions(ctx, rng)
 
     # ---- 4. the library model itself: posixpath.normpath incl. relative paths ----------------------------
     cases = []
@@ -438,7 +555,10 @@ def replay(ctx, rep):
     from paramiko.server import ServerInterface
     _SI = SFTPServerInterface(ServerInterface())
     case = rep.get("case")
-    if isinstance(case, dict) and case.get("via") == "realpath":
+    if isinstance(case, dict) and case.get("via") == "wire":
+        wire_sessions(ctx, ctx.rng)
+        ctx.count(("replay", repr(case)))
+    elif isinstance(case, dict) and case.get("via") == "realpath":
         ctx.count(("replay", repr(case)))
         ctx.count(("replay2", repr(case)))
         realpath_scenario(ctx, {k: case[k] for k in ("via", "sessions", "steps")})
